@@ -904,6 +904,11 @@ matrix_ass_subscr(matrix* self, PyObject* args, PyObject* val)
 
         for (i=0; i < MAT_LGT(Il); i++) {
           spmatrix_getitem_i((spmatrix *)val, i, &n);
+#ifndef _MSC_VER
+          if (id == COMPLEX && SP_ID(val) == DOUBLE) n.z = n.d;
+#else
+          if (id == COMPLEX && SP_ID(val) == DOUBLE) n.z = _Cbuild(n.d,0.0);
+#endif
           write_num[id](self->buffer,
               CWRAP(MAT_BUFI(Il)[i], MAT_LGT(self)), &n, 0);
         }
@@ -1022,6 +1027,11 @@ matrix_ass_subscr(matrix* self, PyObject* args, PyObject* val)
       for (i=0; i < MAT_LGT(Il); i++, cnt++) {
 
         spmatrix_getitem_i((spmatrix *)val, cnt, &n);
+#ifndef _MSC_VER
+        if (id == COMPLEX && SP_ID(val) == DOUBLE) n.z = n.d;
+#else
+        if (id == COMPLEX && SP_ID(val) == DOUBLE) n.z = _Cbuild(n.d,0.0);
+#endif
         write_num[id](self->buffer,CWRAP(MAT_BUFI(Il)[i],self->nrows)  +
             CWRAP(MAT_BUFI(Jl)[j],self->ncols)*self->nrows, &n, 0);
       }
